@@ -18,9 +18,10 @@ _CLASS_TOKEN = re.compile(r'^[A-Za-z0-9]+Type$')
 KIND_CLASS = {"int": "Int32Type", "text": "UTF8Type", "list": "ListType", "set": "SetType", "map": "MapType",
               "tuple": "TupleType", "udt": "UserType", "frozen": "FrozenType", "reversed": "ReversedType",
               "vector": "VectorType"}
-UDT_FIELDS = {"u": ("f1",), "kj": ("f1", "F2"), "Kj": ("f1",), "Big Type": ("f1",), "other-udt": ("f1",), 'a"b': ("f1",)}
+UDT_FIELDS = {"u": ("f1",), "kj": ("f1", "F2"), "Kj": ("f1",), "Big Type": ("f1",), "other-udt": ("f1",), 'a"b': ("f1",), "it's": ("f1",)}
 # names that need quoting in CQL -> quoted form (diagnostics only: attributes a name mismatch to the known printing defect)
-QUOTED = {"Kj": '"Kj"', "Big Type": '"Big Type"', "other-udt": '"other-udt"', 'a"b': '"a""b"'}
+QUOTED = {"Kj": '"Kj"', "Big Type": '"Big Type"', "other-udt": '"other-udt"', 'a"b': '"a""b"', "it's": '"it\'s"'}
+SIG_APOSTROPHE = "cqltype_to_python:apostrophe-in-quoted-name:raises"
 
 SIG_HEXINT = "parse_casstype_args:all-digit-hex-udt-name-read-as-int"
 SIG_VECTOR = "VectorType.cql_parameterized_type:marshal-class-name-instead-of-vector"
@@ -255,12 +256,12 @@ def eval_cql(cql_tokens, stripped_tokens, py_form=None):
         if nows(rt) != nows(s):
             out.append(("cqltype_round_trip:differs", "python_to_cqltype(cqltype_to_python(%r)) = %r" % (s, rt)))
     except Exception as ex:
-        out.append(("cqltype_round_trip:raises", "cqltype_to_python / python_to_cqltype on %r raised %s: %s" % (s, type(ex).__name__, ex)))
+        out.append((SIG_APOSTROPHE if "'" in s else "cqltype_round_trip:raises", "cqltype_to_python / python_to_cqltype on %r raised %s: %s" % (s, type(ex).__name__, ex)))
     try:
         sf = ct.strip_frozen(s)
         want = cql_string(stripped_tokens)
         if nows(sf) != nows(want):
             out.append(("strip_frozen:differs", "strip_frozen(%r) = %r, without its frozen wrappers the type is %r" % (s, sf, want)))
     except Exception as ex:
-        out.append(("strip_frozen:raises", "strip_frozen(%r) raised %s: %s" % (s, type(ex).__name__, ex)))
+        out.append((SIG_APOSTROPHE if "'" in s else "strip_frozen:raises", "strip_frozen(%r) raised %s: %s" % (s, type(ex).__name__, ex)))
     return out
